@@ -38,6 +38,9 @@ SWAPS = [("holder", "counterparty"), ("counterparty", "holder"), ("local", "remo
          ("offered", "received"), ("received", "offered"), ("min", "max"), ("max", "min"),
          ("commit_num", "revoke_num"), ("revoke_num", "commit_num"), ("broadcaster", "countersigner"),
          ("countersigner", "broadcaster")]
+ARITH = [(" + ", " - "), (" - ", " + "), (" * ", " / "), (" / ", " * "), ("saturating_sub(", "saturating_add("),
+         ("saturating_add(", "saturating_sub("), ("checked_add(", "checked_sub("), ("checked_sub(", "checked_add("),
+         (".min(", ".max("), (".max(", ".min("), (" as u32", " as u16"), (" as u64", " as u32 as u64")]
 CMP = [(" >= ", " > "), (" <= ", " < "), (" > ", " >= "), (" < ", " <= "), (" == ", " != "), (" != ", " == ")]
 
 
@@ -68,6 +71,10 @@ def mutants(path, ops):
             out.append(("flag", i, nl, "flag flipped"))
         if "try" in ops and re.match(r"^\s*[A-Za-z_][\w\.\(\)&:, \*]*\)\?;\s*$", l) and "let " not in l and "=" not in l:
             out.append(("try", i, re.sub(r"^(\s*)(.*)\?;\s*$", r"\1let _ = \2;", l), "error ignored"))
+        if "arith" in ops and not re.match(r"^\s*(pub |fn |//|#)", l) and "=>" not in l and "->" not in l:
+            for a, b in ARITH:
+                for m in re.finditer(re.escape(a), l):
+                    out.append(("arith", i, l[:m.start()] + b + l[m.end():], f"arith: {a.strip()} -> {b.strip()}"))
         if "swap" in ops and not re.match(r"^\s*(pub |fn |let |//|#)", l):
             # role swap on a field / method access: `.holder_x` <-> `.counterparty_x`, local/remote, offered/received, min/max
             for a, b in SWAPS:
